@@ -523,7 +523,7 @@ FLATE_ASSUME = 'compress/flate is an oracle (Section variables dz / inflate), in
 COMMON_TRUSTED = [
     'extraction: Require Extraction + ExtrOcamlBasic only (bool/option/unit/list/prod/sumbool/sumor mapped to OCaml; N, Z, positive, nat stay inductive); no Extract Constant',
     'hand-written OCaml driver /verif/ocaml (hex, PRNG, digests) and Go harness /verif/harness; python orchestrator /verif/check',
-    'translator /verif/tools/constx (Go constants, validWireCloseCode, the switches of writeFrameHeader / readFrameHeader, readRSV1Illegal, CompressionMode.opts, the checks of readLoop / handleControl, the EOF codes of netConn.read, verifyClientRequest, the decisions of writeFrame -> coq/Gen/*.v)',
+    'translator /verif/tools/constx (Go constants, validWireCloseCode, the switches of writeFrameHeader / readFrameHeader, readRSV1Illegal, CompressionMode.opts, the checks of readLoop / handleControl, the EOF codes of netConn.read, verifyClientRequest, the decisions of writeFrame, verifyServerResponse / verifySubprotocol / verifyServerExtensions, acceptDeflate / validWindowBits, authenticateOrigin, CloseError.bytesErr / parseClosePayload / writeClose, the two flateContextTakeover functions, compressionOptions.String, the headers set by handshakeRequest and accept -> coq/Gen/*.v; http.StatusSwitchingProtocols is written as 101; header keys are compared after canonicalisation (canon_key, ASCII tokens))',
 ]
 
 WIREIN_RULE = ('wire-in suite: seeded peer byte streams = 1-4 messages (plain / compressed at 5 deflate levels incl. stored and Huffman-only, '
@@ -569,8 +569,8 @@ PROPS = {
         level_text='Theorems: the translated validWireCloseCode is exactly the RFC/IANA table on all of Z; close payload codec round-trips; refused codes/reasons are never sent and Close errors; '
                    '1005 sends an empty payload; a valid handshake writes exactly that Close frame and returns nil; a received Close is echoed with the same code and reason and reported as such; '
                    'after Close/CloseNow returned every later call fails and Close/CloseNow match net.ErrClosed (for every later history).',
-        level_note='CloseSM abstracts the handshake to its API-visible outcomes; timing and concurrency of the handshake are C09/C05/C16.',
-        technique='Go->Gallina translation of validWireCloseCode + Coq proofs (all of Z; induction over histories) + differential run against a scripted raw peer',
+        level_note='Source tie by translation: C06_refusal_is_source, C06_empty_payload_is_source, C06_parse_is_source — what Close refuses to marshal, the one code sent with an empty payload and the parsing of a received payload are the checks of CloseError.bytesErr, writeClose and parseClosePayload translated from close.go on every run (Gen/ClosePayloadCode.v; the translator also checks the shape of the marshalling: 2+len(reason) bytes, big-endian code, the reason). CloseSM abstracts the handshake to its API-visible outcomes; timing and concurrency of the handshake are C09/C05/C16.',
+        technique='Go->Gallina translation of validWireCloseCode / bytesErr / parseClosePayload / the payload decision of writeClose + Coq proofs (all of Z; induction over histories) + differential run against a scripted raw peer',
     ),
     'C01': dict(
         suites=['pair', 'wire-out', 'trim'],
@@ -619,8 +619,8 @@ PROPS = {
         level_text='Theorems: Accept answers 101 iff the request is a valid WebSocket upgrade (declarative predicate) with an authorised origin; otherwise 426/405/400/403 and nothing negotiated; the accept value is '
                    'base64(SHA-1(key ++ GUID)) with Gallina SHA-1 and base64 (RFC vectors by vm_compute, base64 round trip proved); subprotocol = first server-preferred protocol offered. '
                    'Tie: status / hijack / response headers / negotiated options equal the model\'s on every generated request.',
-        level_note='Source tie by translation: C11_checks_are_source — the model answers what the chain of checks of verifyClientRequest, translated from accept.go on every run (Gen/AcceptCode.v: same checks, same order, same HTTP status), answers. decision procedure fully modelled; net/http request parsing not modelled.',
-        technique='Go->Gallina translation of verifyClientRequest + Coq proofs over a Gallina model of accept.go (+ Gallina SHA-1/base64) + differential run through the real Accept',
+        level_note='Source tie by translation: C11_response_is_source — status and headers of the answer are those accept (accept.go) writes, in its order and under its conditions (Gen/HeaderCode.v); C11_checks_are_source — the model answers what the chain of checks of verifyClientRequest, translated from accept.go on every run (Gen/AcceptCode.v: same checks, same order, same HTTP status), answers. decision procedure fully modelled; net/http request parsing not modelled.',
+        technique='Go->Gallina translation of verifyClientRequest and of the response headers of accept + Coq proofs over a Gallina model of accept.go (+ Gallina SHA-1/base64) + differential run through the real Accept',
     ),
     'C12': dict(
         suites=['hs-accept'],
@@ -629,8 +629,8 @@ PROPS = {
         trusted=COMMON_TRUSTED + HS_TRUST, assumptions=['url.Parse and filepath.Match are modelled for Go 1.23.5 (validated, not derived)'],
         level_text='Theorems: the origin decision as an iff over the parsed host, the host comparison and the ordered pattern list; absent origin allowed; refused => 403 with nothing taken over; the parsed host never '
                    'contains / ? # @ (path, query, fragment, userinfo cannot supply it); a literal pattern authorises exactly itself.',
-        level_note='Gallina re-implementations of url.Parse (host) and filepath.Match, proved properties + differential validation; EqualFold restricted as documented.',
-        technique='Coq proofs over Gallina models of url.Parse/filepath.Match/authenticateOrigin + differential run through the real Accept',
+        level_note='Source tie by translation: C12_decision_is_source — the model takes the decisions of authenticateOrigin in the source\'s order (empty Origin, url.Parse failure, EqualFold(r.Host, u.Host), then pattern by pattern: malformed refuses, match authorises), translated from accept.go on every run (Gen/OriginCode.v; the translator also checks that match lowers both sides). Gallina re-implementations of url.Parse (host) and filepath.Match, proved properties + differential validation; EqualFold restricted as documented.',
+        technique='Go->Gallina translation of the decision order of authenticateOrigin + Coq proofs over Gallina models of url.Parse/filepath.Match/authenticateOrigin + differential run through the real Accept',
     ),
     'C13': dict(
         suites=['hs-dial', 'hs-pair'],
@@ -643,20 +643,20 @@ PROPS = {
                    'the accept value for the key sent, an asked-for subprotocol (or none) and honourable extensions. Tie: result, subprotocol, negotiated options and the full request header set equal the model\'s. '
                    'Composition (C13_lib_lib_handshake): for every client configuration with clean subprotocol names, every 16-byte nonce, every Host and every server configuration, the library server upgrades the library '
                    'client\'s request and the client accepts the answer, ending with exactly the compression parameters the server holds; the announced subprotocol is one the client asked for.',
-        level_note='decision fully modelled; "no connection on error" is observed (ok=2 never) not proved (it is about Go return values).',
-        technique='Coq proofs over a Gallina model of dial.go + differential run through the real Dial',
+        level_note='Source tie by translation: C13_response_checks_are_source (the chain of checks of verifyServerResponse / verifySubprotocol in their order, Gen/DialCode.v; the extension check is C14_verify_exts_is_source), C13_request_headers_are_source / C13_request_method_is_source (method and headers handshakeRequest sets, in order, under its conditions, Gen/HeaderCode.v). decision fully modelled; "no connection on error" is observed (ok=2 never) not proved (it is about Go return values).',
+        technique='Go->Gallina translation of verifyServerResponse / verifySubprotocol / the headers of handshakeRequest + Coq proofs over a Gallina model of dial.go + differential run through the real Dial',
     ),
     'C14': dict(
         suites=['hs-accept', 'hs-dial', 'pair', 'hs-pair', 'agree-in', 'agree-out'],
         rule='hs-accept (all extension-offer lists up to 3 offers from a 29-offer grammar incl. window-bits with/without values 7,8,15,16,abc,empty,08, duplicates, unknown parameters, other extensions, '
              'case/spacing variants x 3 modes), hs-dial (22 responses x 3 modes) and the pair suite (every successful library-library handshake is followed by a multi-message compressed exchange in both '
-             'directions); hs-pair: the real Dial against the real Accept, both ends must hold the same parameters, those of the composed model. non-trivial = every case',
+             'directions); hs-pair: the real Dial against the real Accept, both ends must hold the same parameters, those of the composed model; agree-in / agree-out: both roles x every combination of the two no_context_takeover flags (the asymmetric ones, which two library endpoints never negotiate, included), 3-5 compressed messages that repeat one text sent by / received by a reference peer that applies the agreement (wire-in / wire-out runners, models and judges). non-trivial = every case',
         trusted=COMMON_TRUSTED + HS_TRUST + [FLATE_ASSUME], assumptions=[FLATE_ASSUME],
         level_text='Theorems: the server accepts only the first acceptable offer (no duplicates, only honourable parameters), falls back otherwise, echoes server_no_context_takeover when asked, renders a response '
                    'with nothing but the agreed flags; the client accepts only what it can honour and follows the RESPONSE for the server direction; library-library agreement for all 3x3 modes; per-direction '
                    'compatibility with a foreign endpoint that applies the response; sender and receiver consult the same flag.',
-        level_note='Source tie by translation: C14_mode_opts_is_source (CompressionMode.opts, Gen/FrameCode.v). data exchange correctness under the agreed parameters is C01-C03 (flate oracle).',
-        technique='Coq proofs over a Gallina model of the negotiation (finite mode grid by computation, offers by induction) + differential runs through Accept/Dial + end-to-end exchanges',
+        level_note='Source tie by translation: C14_mode_opts_is_source (CompressionMode.opts, Gen/FrameCode.v); C14_accept_deflate_is_source, C14_verify_exts_is_source, C14_window_bits_are_source (duplicate guard, guards, flag reset and per-parameter classification of acceptDeflate / verifyServerExtensions with their string literals, Gen/NegoCode.v); C14_reader_takeover_is_source / C14_writer_takeover_is_source (which side\'s flag a direction consults, Gen/TakeoverCode.v); C14_rendering_is_source (compressionOptions.String, Gen/HeaderCode.v). The exchange after an agreement — asymmetric ones included — is run against a reference peer by agree-in / agree-out; the reader / writer theorems it relies on are C01-C03 (flate oracle).',
+        technique='Go->Gallina translation of acceptDeflate / verifyServerExtensions / flateContextTakeover / compressionOptions.String + Coq proofs over a Gallina model of the negotiation (finite mode grid by computation, offers by induction) + differential runs through Accept/Dial + end-to-end exchanges with a reference peer',
     ),
     'C18': dict(
         suites=['netconn'],
